@@ -6,14 +6,16 @@ from .program import Program
 from .interp import Stats
 
 CRATES = ['rbx_types', 'rbx_dom_weak', 'rbx_reflection', 'rbx_binary']
-_PROG = None
+_PROGS = {}
+_MODULE = bincheck
+_CRATES = CRATES
 
 
 def _load():
-    global _PROG
-    if _PROG is None:
-        _PROG = Program(CRATES, mirdump.MIR_DIR)
-    return _PROG
+    key = tuple(_CRATES)
+    if key not in _PROGS:
+        _PROGS[key] = Program(list(_CRATES), mirdump.MIR_DIR)
+    return _PROGS[key]
 
 
 def refresh_mir():
@@ -26,7 +28,7 @@ def _work(job):
     st = Stats()
     t = time.time()
     try:
-        r = bincheck.explore(_load(), case, st, budget_s=budget)
+        r = _MODULE.explore(_load(), case, st, budget_s=budget)
     except Exception as e:
         import traceback
         r = dict(paths=0, ok=0, err=0, infeasible=0, violations=[], unsupported='encoder exception: %r %s' % (e, traceback.format_exc()[-500:]))
@@ -34,7 +36,10 @@ def _work(job):
     return r
 
 
-def run(groups, prop_prefixes, jobs=None):
+def run(groups, prop_prefixes, jobs=None, module=None, crates=None):
+    """module: the checker (explore(prog, case, stats, budget_s)); default bincheck over the four crates"""
+    global _MODULE, _CRATES
+    _MODULE, _CRATES = module or bincheck, crates or CRATES
     jobs = jobs or min(14, os.cpu_count() or 4)
     _load()
     all_jobs = [(g['id'], (c, g.get('budget', 300))) for g in groups for c in g['cases']]
